@@ -56,7 +56,8 @@ def finding_matches(entry, prop, v):
     if entry.get("property") != prop or entry.get("status") != "open":
         return False
     sig = entry["signature"]
-    if sig.get("rule") != v["rule"]:
+    rule = sig.get("rule")
+    if rule != "*" and v["rule"] not in (rule if isinstance(rule, list) else [rule]):
         return False
     params = v.get("params", {})
     for k, want in sig.get("params", {}).items():
@@ -390,6 +391,9 @@ def run_check(prop, tier, master, workers=None, runs_override=None):
         by_sig.setdefault(sig_of(v), []).append(v)
     known_hits = collections.OrderedDict()
     unknown = []
+    if os.environ.get("VERIF_SIGS"):
+        for sig, vs in sorted(by_sig.items(), key=lambda kv: -len(kv[1])):
+            print(f"SIG {len(vs):6d} {sig}  e.g. {vs[0]['detail'][:160]}")
     for sig, vs in by_sig.items():
         entry = next((e for e in known if finding_matches(e, prop, vs[0])), None)
         if entry is not None:
